@@ -5,6 +5,7 @@ CONSTANT ExtraIds = {11, 99}
 CONSTANT Design = "fixed"
 CONSTANT LkaOffKinds = {"ntn"}
 CONSTANT LkaOffFull = FALSE
+CONSTANT StopScope = "duplex"
 INIT Init
 NEXT Next
 INVARIANT TypeOK
@@ -14,3 +15,4 @@ INVARIANT ResponderOnlyNeverDeliversResponse
 INVARIANT StartedIffEnabled
 INVARIANT EnabledIsReachable
 INVARIANT LocalOptInOnlyAffectsOwnInitiator
+INVARIANT StopRemovesExactlyThatPair
